@@ -513,6 +513,12 @@ class Symex:
             if isinstance(cur, set) and isinstance(s.op, (ast.BitOr,)):
                 cur.update(v)
                 return
+            if hasattr(type(cur), "sx_inplace"):
+                # mutable model value of a rule: `x op= v` may update the object itself (aliases see it)
+                r = cur.sx_inplace(self, s.op, v, s)
+                if r is not NotImplemented:
+                    self.assign(s.target, r)
+                    return
             self.inplace = True         # visible to rule-defined arithmetic ("$binop"): `x op= y`
             try:
                 r = self.binop(s.op, cur, v, s)
